@@ -144,4 +144,49 @@ mod verif_kani {
         std::mem::forget(out);
         std::mem::forget(td);
     }
+
+    /// C10 / C09 / C08 (ws cleaning, shape-independent cross-check of the Verus proof): two stored peers with up to two pending offers
+    /// each, every deadline and the clock symbolic; after `clean_and_get_num_peers` exactly the peers with deadline > now remain, each with
+    /// exactly its pending offers with deadline > now, and the cached seeder counter is exact
+    #[kani::proof]
+    #[kani::unwind(22)]
+    fn clean_two_peers_two_offers() {
+        let now: u32 = kani::any();
+        let mut td = TorrentData::default();
+        let d1: u32 = kani::any(); let d2: u32 = kani::any();
+        let s1: bool = kani::any(); let s2: bool = kani::any();
+        let e11: u32 = kani::any(); let e12: u32 = kani::any(); let e21: u32 = kani::any();
+        let n1: usize = kani::any(); kani::assume(n1 <= 2);
+        let n2: usize = kani::any(); kani::assume(n2 <= 1);
+        let vu = |d: u32| ValidUntil::new_raw(SecondsSinceServerStart::new_raw(d));
+        let mut p1 = Peer { consumer_id: ConsumerId(0), connection_id: conn(1), seeder: s1, valid_until: vu(d1), expecting_answers: IndexMap::default() };
+        if n1 >= 1 { p1.expecting_answers.insert(ExpectingAnswer { from_peer_id: pid(2), regarding_offer_id: oid(1) }, vu(e11)); }
+        if n1 >= 2 { p1.expecting_answers.insert(ExpectingAnswer { from_peer_id: pid(2), regarding_offer_id: oid(2) }, vu(e12)); }
+        let mut p2 = Peer { consumer_id: ConsumerId(1), connection_id: conn(2), seeder: s2, valid_until: vu(d2), expecting_answers: IndexMap::default() };
+        if n2 >= 1 { p2.expecting_answers.insert(ExpectingAnswer { from_peer_id: pid(1), regarding_offer_id: oid(3) }, vu(e21)); }
+        let two: bool = kani::any();
+        td.peers.insert(pid(1), p1);
+        if two { td.peers.insert(pid(2), p2); }
+        td.num_seeders = (s1 as usize) + ((two && s2) as usize);
+
+        let r = td.clean_and_get_num_peers(SecondsSinceServerStart::new_raw(now));
+
+        let k1 = d1 > now; let k2 = two && d2 > now;
+        assert!(td.peers.get(&pid(1)).is_some() == k1 && td.peers.get(&pid(2)).is_some() == k2,
+            "[C10.ws.clean.exactly_the_expired_peers_and_offers_removed][C08.ws.clean.state] a peer remains exactly when its deadline is in the future");
+        assert!(r == (k1 as usize) + (k2 as usize), "[C10.ws.clean.count] the returned count is the number of peers that remain");
+        assert!(td.num_seeders == ((k1 && s1) as usize) + ((k2 && s2) as usize), "[C10.ws.clean.wf][C08.ws.clean.wf] the cached seeder counter equals the stored seeders after cleaning");
+        if let Some(p) = td.peers.get(&pid(1)) {
+            let a = p.expecting_answers.get(&ExpectingAnswer { from_peer_id: pid(2), regarding_offer_id: oid(1) }).is_some();
+            let b = p.expecting_answers.get(&ExpectingAnswer { from_peer_id: pid(2), regarding_offer_id: oid(2) }).is_some();
+            assert!(a == (n1 >= 1 && e11 > now) && b == (n1 >= 2 && e12 > now),
+                "[C09.ws.clean.expired_expectations_removed][C10.ws.clean.exactly_the_expired_peers_and_offers_removed] a pending offer remains exactly when its deadline is in the future");
+            assert!(p.seeder == s1 && p.consumer_id.0 == 0 && p.connection_id == conn(1), "[C08.ws.clean.state] a remaining peer is otherwise unchanged");
+        }
+        if let Some(p) = td.peers.get(&pid(2)) {
+            let a = p.expecting_answers.get(&ExpectingAnswer { from_peer_id: pid(1), regarding_offer_id: oid(3) }).is_some();
+            assert!(a == (n2 >= 1 && e21 > now), "[C09.ws.clean.expired_expectations_removed][C10.ws.clean.exactly_the_expired_peers_and_offers_removed] a pending offer remains exactly when its deadline is in the future");
+        }
+        kani::cover!(true);
+    }
 }
